@@ -143,6 +143,19 @@ def open_stream(data, how=None):
         fp.seek(0)
         return fp
 
+    if how[0] == 'gzip':
+        import gzip
+        import tempfile
+        f = tempfile.NamedTemporaryFile(suffix='.gz', delete=False)
+        f.close()
+
+        with gzip.open(f.name, 'wb') as gz:
+            gz.write(data)
+
+        stream = gzip.open(f.name, 'rb')
+        os.unlink(f.name)
+        return stream
+
     raise ValueError(how)
 
 
